@@ -103,6 +103,8 @@ def run(check, mirror, tier):
         jobs.append(lambda c, fixed=fixed: decide(c, crate, "input_variable_closure/%s" % (fixed or "no_typeRef"), lambda ex, st: setup(ex, st, fixed), post, replay_input, rb,
                                                   models=MODELS, unwind=8, describe=desc, budget_s=900, min_paths=2, timeout_ms=20000, known_predicates=KNOWN_PRED,
                                                   prefer=lambda inp: U.replayable_pref(inp["_entry"])))
+    from checks import C11_itemdef
+    C11_itemdef.jobs_for(check, mirror, rb, crate, U, jobs, tier, KNOWN_PRED)
     run_parallel(check, jobs)
 
 
